@@ -1037,10 +1037,18 @@ def rdModify : Rd Modify := do
       let s ← rdList rdTrees
       pure ⟨n, k, some s⟩
 
-def rdSetting : Rd (String × List Tree) := do
+/-- a setting: its key and the value as Python holds it — `N` + a number (`int` / `float`: `format_settings` prints
+    `f"{value}"`, i.e. `str(int)` / the shortest round-trip repr, printed here) or `S` + the tokens of any other value -/
+def rdSetting : Rd (String × List Tree × Bool) := do
   let k ← rdStr
-  let v ← rdTrees
-  pure (k, v)
+  let w ← rdWord
+  if w = "N" then do
+    let n ← rdPyNum
+    pure (k, [.atom n.str], n.ok)
+  else if w = "S" then do
+    let v ← rdTrees
+    pure (k, v, true)
+  else failure
 
 def rdDefault : Rd (Option (String × String)) := do
   match (← get) with
@@ -1059,7 +1067,10 @@ def footerComments : Option (List String) :=
 def rdDecl : Rd Decl := do
   let (ff, hc) ← (headerTrees : Option _)
   let ft ← (footerComments : Option _)
-  let settings ← rdList rdSetting
+  let settings3 ← rdList rdSetting
+  -- a setting number that fails the validator is an ill-formed request (never a default value)
+  if !settings3.all (·.2.2) then failure
+  let settings := settings3.map (fun x => (x.1, x.2.1))
   let gb ← rdList rdGEntry
   let ga ← rdList rdGEntry
   let mb ← rdList rdPair
